@@ -213,7 +213,8 @@ MODELLED = {
             "pkg/builder/model/method.go", "pkg/parser/comment.go"] + F_HOOKS,
     "C08": F_METHOD + ["pkg/parser/method.go", "pkg/parser/comment.go"],
     "C09": F_PARSER + ["pkg/parser/comment.go", "pkg/option/option.go", "pkg/option/pattern_matcher.go"],
-    "C10": F_HOOKS + ["pkg/parser/comment.go", "pkg/builder/method.go"],
+    "C10": F_HOOKS + ["pkg/parser/comment.go", "pkg/builder/method.go", "pkg/parser/parser.go:importNamesOf", "pkg/util/import.go",
+            "pkg/generator/manipulator.go"],
     "C11": F_PARSER,
     "C12": ["pkg/parser/parser.go"] + F_RUNNER,
     "C13": F_RUNNER + ["pkg/util/import.go", "pkg/parser/parser.go"],
@@ -393,7 +394,9 @@ PROPS = {
     },
     "C10": {
         "bridge": RENDER + DEC("Hooks"),
-        "sweeps": [sweep_front("hooks", 200, 4000, cats=["hook", "exit", "errflow"]), sweep_runtime(50, 1500)],
+        "sweeps": [sweep_front("hooks", 200, 4000, cats=["hook", "exit", "errflow"]), sweep_runtime(50, 1500),
+                   # hooks of imported packages: which package a qualifier means
+                   sweep_front("imports", 40, 1500, cats=["hook", "exit"])],
         "rule": FRONT_RULE % "hooks",
         "explanation": "text order doc/signature/allocation/pre/assignments/post/return; call arguments dst, src, extra args in "
                        "order; adaptation correct where declared pointer-ness is the real one (witness for arg style by-value dst); "
